@@ -132,7 +132,8 @@ class FileWriteable(FileReadable, metaclass=ABCMeta):
 
     def file_write(self) -> None:
         file_path = self.get_file(self.path)
-        with NamedTemporaryFile('w', delete=False) as tmp:
+        file_dir = os.path.dirname(file_path)
+        with NamedTemporaryFile('w', dir=file_dir, delete=False) as tmp:
             self.write(tmp)
         os.rename(tmp.name, file_path)
         self._touched = False
